@@ -17,10 +17,174 @@ from typing import Any
 
 from . import core
 
-MODULES = ["ESV.Props.DecompFront", "ESV.Props.DecompOpt"]
+MODULES = ["ESV.Props.DecompFuel", "ESV.Props.DecompFront", "ESV.Props.DecompOpt", "ESV.Props.DecompBranches"]
 THEOREMS = ["ESV.DecompFront.resolve_total", "ESV.DecompFront.resolve_preserves", "ESV.DecompFront.baseGraph_preserves",
             "ESV.DecompFront.resolve_names", "ESV.DecompFront.baseGraph_ok", "ESV.DecompFront.edge_reading_agrees",
-            "ESV.DecompFront.optimizePaths_preserves", "ESV.DecompFront.front_phases_preserve"]
+            "ESV.DecompFront.optimizePaths_preserves", "ESV.DecompFront.front_phases_preserve",
+            "ESV.DecompFront.buildBranches_preserves", "ESV.DecompFront.buildBranches_one_answer",
+            "ESV.DecompFront.optimizePaths_branchesStructOk", "ESV.DecompFront.front_through_branches_preserve",
+            "ESV.Decomp.buildBranches_second_in_edge_counterexample", "ESV.Decomp.buildBranches_start_vertex_counterexample",
+            "ESV.Decomp.buildBranches_levels_counterexample", "ESV.Decomp.buildBranches_other_target_counterexample",
+            "ESV.DecompFront.baseGraph_never_fuel", "ESV.DecompFront.hasPath_fuel_irrelevant", "ESV.DecompFront.processOp_fuel_irrelevant"]
+THEOREMS += ["ESV.DecompFront.baseGraph_never_fuel", "ESV.DecompFront.hasPath_fuel_irrelevant", "ESV.DecompFront.processOp_fuel_irrelevant"]
+
+
+BB_EXAMPLES: list[dict] = []   # first real inputs on which build_branches alone changes behaviour (counted, see front_channels)
+
+
+def count_branches(cnt: Counter, a: dict, answers: list) -> None:
+    """coverage of the build_branches tie: outcomes, number of search calls, shapes of the answers"""
+    bb = a.get("bb")
+    if isinstance(bb, dict):
+        cnt["build_branches:raises:" + bb.get("error", "?")] += 1
+    else:
+        cnt["build_branches:ok"] += 1
+        if any(len(g["vs"]) != len(o["vs"]) for g, o in zip(bb, a["opt"])):
+            cnt["build_branches:deletes_vertices"] += 1
+        if any(v.get("ife") for g in bb for v in g["vs"]):
+            cnt["build_branches:marks_if_end"] += 1
+    for per_graph in answers:
+        for x in per_graph:
+            cnt["search_calls"] += 1
+            cnt["search_answer:" + ("none" if x is None else ("same_edge" if x[0] == x[1] else "two_edges"))] += 1
+
+
+def _bv(n: Any, item: dict) -> dict:
+    return dict(item, n=n, ifs=None, ife=[])
+
+
+def _lj(off: int, name: str, label: int, call: bool = False) -> dict:
+    return {"k": "ljump", "off": off, "name": name, "params": [], "label": label, "call": call}
+
+
+def _opv(off: int, name: str) -> dict:
+    return {"k": "op", "off": off, "name": name, "params": []}
+
+
+def _es(*edges: tuple) -> list:
+    return [[s, t, lv, False, False] for (s, t, lv) in edges]
+
+
+# the witnesses of lean/ESV/Decomp/BrCounter.lean and lean/ESV/Props/DecompBranches.lean (exIfElse), replayed on the real
+# build_branches with the search forced to the witness' answer: (name, graph, answers, expected real behaviour change)
+WITNESSES = [
+    ("cexTwoIn", {"vs": [_bv(0, _lj(0, "Branch", 7)), _bv(1, _opv(1, "Foo")), _bv(2, _opv(2, "Bar")), _bv(3, _lj(3, "Jump", 8)), _bv(4, {"k": "label", "id": 8}), _bv(5, _opv(4, "Baz"))],
+                  "es": _es((0, 1, 0), (0, 2, 1), (1, 3, 0), (2, 3, 0), (3, 4, 1), (4, 5, 0))}, [[4, 4]], True),
+    ("cexStart", {"vs": [_bv(0, _lj(0, "Jump", 8)), _bv(1, _opv(1, "Foo")), _bv(2, {"k": "label", "id": 8}), _bv(3, _lj(2, "Branch", 9)), _bv(4, _opv(3, "Bar"))],
+                  "es": _es((0, 2, 1), (2, 3, 0), (3, 4, 0), (3, 0, 1))}, [[0, 0]], True),
+    ("cexLevels", {"vs": [_bv(0, _lj(0, "Branch", 7)), _bv(1, _opv(1, "Foo")), _bv(2, _lj(2, "Jump", 8)), _bv(3, _opv(3, "Qux")), _bv(4, _opv(4, "Bar")), _bv(5, {"k": "label", "id": 8}), _bv(6, _opv(5, "Baz"))],
+                   "es": _es((0, 1, 0), (0, 4, 1), (1, 2, 0), (1, 3, 0), (2, 5, 1), (4, 5, 0), (5, 6, 0))}, [[5, 4]], True),
+    ("cexTarget", {"vs": [_bv(0, _lj(0, "Branch", 7)), _bv(1, _opv(1, "Foo")), _bv(2, _lj(2, "Jump", 9)), _bv(3, _opv(3, "Bar")), _bv(4, {"k": "label", "id": 8}), _bv(5, _opv(4, "Baz")), _bv(6, {"k": "label", "id": 9}), _bv(7, _opv(5, "Zed"))],
+                   "es": _es((0, 1, 0), (0, 3, 1), (1, 2, 0), (2, 6, 1), (3, 4, 0), (4, 5, 0), (6, 7, 0))}, [[4, 3]], True),
+    ("exIfElse", {"vs": [_bv(0, _lj(0, "Branch", 1)), _bv(1, _opv(1, "Foo")), _bv(2, _lj(2, "Jump", 2)), _bv(3, {"k": "label", "id": 1}), _bv(4, _opv(3, "Bar")), _bv(5, {"k": "label", "id": 2}), _bv(6, _opv(4, "Baz"))],
+                  "es": _es((0, 1, 0), (0, 3, 1), (1, 2, 0), (2, 5, 1), (3, 4, 0), (4, 5, 0), (5, 6, 0))}, [[5, 3]], False),
+]
+
+
+def random_bgraph(rnd: Any) -> tuple[dict, list]:
+    """a small random graph with vertex names, and a random answer list for the search: shapes real runs never produce
+    (several in-edges of a Jump, answers naming arbitrary edges, marked jumps, shuffled names) included"""
+    n = rnd.randint(2, 9)
+    vs = []
+    names = sorted(rnd.sample(range(0, 3 * n), n))
+    if rnd.random() < 0.25:
+        rnd.shuffle(names)
+    for i in range(n):
+        r = rnd.random()
+        if r < 0.22:
+            it = _lj(i, rnd.choice(["Branch", "BranchBit", "BranchVariable"]), rnd.randint(0, 5), call=rnd.random() < 0.04)
+        elif r < 0.42:
+            it = _lj(i, "Jump", rnd.randint(0, 5))
+        elif r < 0.47:
+            it = _lj(i, rnd.choice(["Call", "CaseValue"]), rnd.randint(0, 5), call=rnd.random() < 0.5)
+        elif r < 0.72:
+            it = {"k": "label", "id": i}
+        elif r < 0.77:
+            it = {"k": "foreign", "id": i}
+        else:
+            it = _opv(i, rnd.choice(["Foo", "Bar", "Wait", "Return", "lives", "End"]))
+        v = _bv(None if it["k"] == "foreign" else names[i], it)
+        if it["k"] == "ljump" and rnd.random() < 0.03:
+            v["ifs"] = rnd.randint(0, 3)
+        if it["k"] == "label" and rnd.random() < 0.1:
+            v["ife"] = [rnd.randint(0, 3)]
+        vs.append(v)
+    es = []
+    labels = [i for i, v in enumerate(vs) if v["k"] == "label"]
+    for _ in range(rnd.randint(0, 2 * n + 2)):
+        s = rnd.randrange(n)
+        t = rnd.choice(labels) if labels and rnd.random() < 0.4 else rnd.randrange(n)
+        es.append([s, t, rnd.choice([0, 0, 1, 1, 2]), rnd.random() < 0.12, rnd.random() < 0.05])
+    for i, v in enumerate(vs):
+        if v["k"] == "ljump" and v["name"].startswith("Branch") and rnd.random() < 0.8:
+            es.append([i, rnd.randrange(n), 0, False, False])
+            es.append([i, rnd.choice(labels) if labels else rnd.randrange(n), 1, rnd.random() < 0.1, False])
+        if v["k"] == "ljump" and v["name"] == "Jump" and labels and rnd.random() < 0.7:
+            es.append([i, rnd.choice(labels), 1, rnd.random() < 0.05, False])
+    rnd.shuffle(es)
+    nb = sum(1 for v in vs if v["k"] == "ljump" and v["name"].startswith("Branch"))
+    answers: list = []
+    to_label = [i for i, e in enumerate(es) if vs[e[1]]["k"] == "label"]
+    jump_to_label = [i for i in to_label if vs[es[i][0]]["k"] == "ljump" and vs[es[i][0]]["name"] == "Jump"]
+    if jump_to_label and rnd.random() < 0.7:
+        to_label = jump_to_label
+    for _ in range(max(0, nb - (1 if rnd.random() < 0.05 else 0))):
+        if not es or rnd.random() < 0.2:
+            answers.append(None)
+            continue
+        a = rnd.choice(to_label) if to_label and rnd.random() < 0.8 else rnd.randrange(len(es))
+        r = rnd.random()
+        if r < 0.2:
+            b = a
+        elif r < 0.75:
+            same = [i for i, e in enumerate(es) if e[1] == es[a][1]]
+            b = rnd.choice(same)
+        else:
+            b = rnd.randrange(len(es) + (1 if rnd.random() < 0.05 else 0))
+        answers.append([a, b])
+    return {"vs": vs, "es": es}, answers
+
+
+def branches_graph_tie(run: core.Run, pool: core.Pool, drv: core.Driver, n: int, jobs: int, cnt: Counter) -> int:
+    """graph-level tie of build_branches: model and real code on hand-built graphs with forced answers of the search
+    (the witnesses of the Lean counterexamples + n random graphs); returns the number of mismatches.  On every graph
+    the theorem's conclusion is also re-checked by the proven checker: hypotheses hold => behaviour kept."""
+    cases = [(name, g, ans, exp) for (name, g, ans, exp) in WITNESSES]
+    for k in range(n):
+        g, ans = random_bgraph(run.rng)
+        cases.append((f"random{k}", g, ans, None))
+    reqs = [{"g": g, "answers": ans} for (_n, g, ans, _e) in cases]
+    chunk = 40
+    chunks = [reqs[i:i + chunk] for i in range(0, len(reqs), chunk)]
+    outs = pool.map("harness.impl_decomp:branches_on_graphs", chunks, timeout=90)
+    real: list[Any] = []
+    for ch, o in zip(chunks, outs):
+        real += o if isinstance(o, list) else [None] * len(ch)
+    model = drv.batch_parallel([dict(r, op="decomp.branches") for r in reqs], jobs)
+    mism = 0
+    for (name, g, ans, exp), a, b in zip(cases, real, model):
+        if a is None:
+            cnt["graph_tie:impl_no_answer"] += 1
+            continue
+        b = dict(b)
+        facts = {k: b.pop(k, None) for k in ("struct_ok", "answers_ok", "verdict", "no_silent_cycle")}
+        cnt["graph_tie:" + ("raises:" + a["error"] if "error" in a else "ok" + (":deletes" if len(a["vs"]) != len(g["vs"]) else (":reconnects" if [e[:4] for e in a["es"]] != [e[:4] for e in g["es"]] else "")))] += 1
+        if a != b:
+            mism += 1
+            if mism <= 2:
+                run.broken_tie("correspondence build_branches on a hand-built graph: model and implementation disagree",
+                               {"channel": "decomp.branches", "case": name, "g": g, "answers": ans, "impl": a, "model": b})
+            continue
+        if "error" in a:
+            continue
+        hyp = facts["struct_ok"] and facts["answers_ok"]
+        changed = facts["verdict"] in ("differ", "check-rejected", "silent-right", "budget")
+        cnt["graph_tie:hypotheses_" + ("hold" if hyp else "fail") + (":behaviour_changed" if changed else "")] += 1
+        if hyp and changed:
+            run.broken_tie("buildBranches_preserves contradicted by the proven checker on a hand-built graph", {"channel": "decomp.branches", "case": name, "g": g, "answers": ans, "facts": facts})
+        if exp is not None and (changed != exp or hyp == exp):
+            run.broken_tie(f"witness {name} of a Lean counterexample does not replay on the real build_branches", {"channel": "decomp.branches", "case": name, "impl": a, "facts": facts})
+    return mism
 
 
 def strip_ops(rs: dict) -> list:
@@ -38,13 +202,24 @@ def front_channels(run: core.Run, pool: core.Pool, drv: core.Driver, sets: list[
     real: list[Any] = []
     for ch, o in zip(chunks, outs):
         real += o if isinstance(o, list) else [None] * len(ch)
-    model = drv.batch_parallel([{"op": "decomp.front", "rs": strip_ops(s["rs"])} for s in sets], jobs)
+    # the answers of the heuristic search build_branches calls are an oracle input of the model: recorded from the real run
+    model = drv.batch_parallel([dict({"op": "decomp.front", "rs": strip_ops(s["rs"])},
+                                     **({"answers": a["answers"]} if isinstance(a, dict) and "answers" in a else {}))
+                                for s, a in zip(sets, real)], jobs)
     mism = 0
     vreqs, vidx = [], []
+    answers_of: dict[int, Any] = {}
     for i, (s, a, b) in enumerate(zip(sets, real, model)):
         if a is None:
             cnt["impl_no_answer"] += 1
             continue
+        if "answers" in a:
+            answers_of[i] = a.pop("answers")
+            count_branches(cnt, a, answers_of[i])
+            if isinstance(a["bb"], dict) and a["bb"].pop("oracle_raised", False) and isinstance(b.get("bb"), dict) and b["bb"].get("error") == "OracleExhausted":
+                # the search itself raised: the model has no answer left at that call
+                cnt["build_branches:search_raised"] += 1
+                a["bb"] = b["bb"]
         cnt["stage:" + (a.get("stage") or "ok") + (":" + a["error"] if "error" in a else "")] += 1
         if a.get("has_calls"):
             cnt["has_calls"] += 1
@@ -108,6 +283,37 @@ def front_channels(run: core.Run, pool: core.Pool, drv: core.Driver, sets: list[
                               {"rs": sets[i]["rs"], "verdict": v, "base": real[i]["graphs"][v["r"]], "optimized": real[i]["opt"][v["r"]]})
             if v["guard"] and v["no_silent_cycle"] and v["readings"] != "equiv":
                 run.broken_tie("positional and edge-based reading of a real base graph disagree", {"channel": "readings", "rs": sets[i]["rs"], "graph": real[i]["graphs"][v["r"]]})
+    # second rewriting phase (build_branches): the real graphs after it against the real graphs after optimize_paths
+    breqs, bidx = [], []
+    for i, a in enumerate(real):
+        if a and isinstance(a.get("bb"), list) and isinstance(a.get("opt"), list):
+            breqs.append({"op": "decomp.validate_branches", "opt": a["opt"], "opt_names": a["opt_names"], "answers": answers_of.get(i, []), "bb": a["bb"]})
+            bidx.append(i)
+    for i, rep in zip(bidx, drv.batch_parallel(breqs, jobs)):
+        if "error" in rep:
+            cnt["validate_branches_error"] += 1
+            run.broken_tie("decomp.validate_branches failed: " + str(rep["error"])[:200], {"channel": "decomp.validate_branches", "rs": sets[i]["rs"]})
+            continue
+        for v in rep["bb"]:
+            tag = ":changed" if v["changed"] else ""
+            cnt["build_branches:" + v["verdict"] + tag] += 1
+            hyp = v["struct_ok"] and v["answers_ok"]
+            cnt["build_branches:hypotheses_" + ("hold" if hyp else ("fail:" + ("" if v["struct_ok"] else "struct") + ("" if v["answers_ok"] else "answers"))) + tag] += 1
+            # "silent-left": the graph before the phase has a reachable cycle of labels and Jumps only (outside the quantifier
+            # of C02/C06; the checker does not decide such pairs)
+            bad = v["verdict"] in ("differ", "check-rejected", "silent-right", "budget", "start-deleted") or (v["verdict"] == "silent-left" and v["no_silent_cycle"])
+            if bad and hyp:
+                # buildBranches_preserves says this cannot happen
+                run.broken_tie("a real build_branches run that meets the hypotheses of buildBranches_preserves changes behaviour",
+                               {"channel": "decomp.validate_branches", "rs": sets[i]["rs"], "verdict": v})
+            elif bad:
+                # NOTE (W5): COUNTED, not reported as run.violation("front:build_branches_changes_behaviour", ...), as the task
+                # asks for real inputs on which the phase alone changes behaviour (later passes may repair them; the final text
+                # is judged by C02's validation as before).  The first examples are kept in BB_EXAMPLES.
+                cnt["front:build_branches_changes_behaviour"] += 1
+                if len(BB_EXAMPLES) < 5:
+                    BB_EXAMPLES.append({"rs": sets[i]["rs"], "verdict": v, "optimized": real[i]["opt"][v["r"]], "branches": real[i]["bb"][v["r"]], "answers": answers_of.get(i, [])[v["r"]]})
+    mism += branches_graph_tie(run, pool, drv, 400, jobs, cnt)
     # environment model: igraph incident-edge order
     st = pool.map("harness.impl_decomp:igraph_order_selftest", [{"seed": run.seed, "n": 150}], timeout=60)[0]
     if not isinstance(st, dict) or st.get("bad"):
@@ -133,4 +339,9 @@ def replay_front(rs: dict) -> list[str]:
         for v in rep.get("graph", []):
             if v.get("guard") and v["verdict"] not in ("equiv",):
                 out.append(f"graph routine {v['r']}: {v['verdict']}")
+    if isinstance(a.get("bb"), list) and isinstance(a.get("opt"), list):
+        rep = drv.batch([{"op": "decomp.validate_branches", "opt": a["opt"], "opt_names": a["opt_names"], "answers": a["answers"], "bb": a["bb"]}])[0]
+        for v in rep.get("bb", []):
+            if v["verdict"] != "equiv" and v["no_silent_cycle"]:
+                out.append(f"build_branches routine {v['r']}: {v['verdict']}")
     return out
